@@ -54,6 +54,9 @@ func oracleC07(f *sessionFam, w *World, res *Result) []Violation {
 			if e.Sess != a {
 				continue
 			}
+			if closeEv != nil && e.Seq > closeEv.Seq {
+				break // what happens after the close event is C03's business
+			}
 			switch {
 			case e.Kind == "packetCreate" && strings.HasPrefix(e.S, "ping|"):
 				hs = append(hs, hev{"ping-out", e.T, e.Seq})
@@ -72,6 +75,7 @@ func oracleC07(f *sessionFam, w *World, res *Result) []Violation {
 		if v4 {
 			lastAccept := conns[0].T // the session opened (timers armed) at the instant of the connection event
 			var outstanding *hev     // ping without accepted pong
+			var answered *hev        // the ping the last accepted pong answered
 			upgradedSincePing := false
 			for i := range hs {
 				h := hs[i]
@@ -90,6 +94,7 @@ func oracleC07(f *sessionFam, w *World, res *Result) []Violation {
 					if outstanding != nil && h.t > outstanding.t+pt && !upgradedSincePing {
 						l.add("late-pong-not-accepted", "", fmt.Sprintf("%s [%s]: pong accepted at %v, after the deadline %v of the ping of %v", a, ctx, h.t, outstanding.t+pt, outstanding.t))
 					}
+					answered = outstanding
 					outstanding = nil
 					lastAccept = h.t
 				case "upgrade":
@@ -104,6 +109,9 @@ func oracleC07(f *sessionFam, w *World, res *Result) []Violation {
 			}
 			if closeEv != nil && closeEv.S == "ping timeout" {
 				switch {
+				case outstanding == nil && answered != nil && lastAccept == answered.t+pt && closeEv.T == lastAccept:
+					// exact tie: the pong was processed at the very deadline instant; both outcomes are accepted
+					w.probe("pong_at_exact_deadline")
 				case outstanding == nil:
 					l.add("responsive-peer-never-timed-out", "", fmt.Sprintf("%s [%s]: closed for ping timeout at %v although every ping had been answered (last pong accepted at %v)", a, ctx, closeEv.T, lastAccept))
 				case closeEv.T < outstanding.t+pt:
